@@ -181,8 +181,30 @@ def main_run(prop: str, tier: str, run) -> int:
     seed = int(os.environ.get("VERIF_SEED", "0") or 0)
     ctx = Ctx(prop=prop, tier=tier, seed=seed)
     try:
+        st_bad: list[str] = []
+        if tier == "thorough" and os.environ.get("PVS_NO_SELFTEST") != "1" and str(core.REPO) == "/repo":
+            # thorough = the quick rules + the checker's own self-test for this property: every seeded
+            # one-site variant (scratch copies outside /repo and /verif) must be reported, the clean copy must be quiet
+            from .selftest import runner
+            from .selftest.variants import VARIANTS
+            from concurrent.futures import ThreadPoolExecutor
+            sel = [v for v in VARIANTS if v[1] == prop]
+            with ThreadPoolExecutor(max_workers=int(os.environ.get("PVS_JOBS", "16"))) as ex:
+                res = list(ex.map(runner.run_variant, sel))
+            stale = [i for i, ok, m in res if not ok and m.startswith("pattern ")]
+            st_bad = [f"{i}: {m[:300]}" for i, ok, m in res if not ok and not m.startswith("pattern ")]
+            ctx.analysed["selftest_variants"] = len(res)
+            ctx.analysed["selftest_expected_behaviour"] = len(res) - len(st_bad) - len(stale)
+            ctx.analysed["selftest_not_applicable_to_this_tree"] = stale
+            ctx.analysed["selftest_samples"] = [f"{v[0]} ({v[2] or 'clean copy'}) -> {'must report ' + v[5] if v[5] else 'must stay quiet'}" for v in sel[:12]]
         run(ctx)
-        return finish(ctx)
+        rc = finish(ctx)
+        if st_bad and rc == 0:
+            for b in st_bad:
+                print("SELFTEST-FAIL", b)
+            print(f"ANALYSIS-ERROR property={prop}: the checker's self-test failed for {len(st_bad)} variant(s); its verdict is not trusted")
+            return 2
+        return rc
     except (core.AnchorMissing, AnalysisError) as e:
         print(f"ANALYSIS-ERROR property={prop}: {e}")
         return 2
